@@ -47,6 +47,12 @@ func init() {
 		"C14": {
 			"R10 (a)-(d): bounded allocation, CRC and trailer dominate every success return of a decoder, a torn header is corruption, an empty read result is never indexed.",
 			"that other segments keep answering; panics in dependencies; index-file damage (excluded by the property)."},
+		"C15": {
+			"every trim finder scans from OffsetOldest and continues where the previous Consume ended (R37 cursor); every offset it selects is the Offset of a message of the batch just consumed (R37 selection); FindByOffset selects a message only where its offset was compared as below the bound, FindByAge only where it was tested as not after the cut-off, on that same message (R37 bound); every Trim* wrapper hands its finder's set unchanged to the delete, only where the finder succeeded (R38 plumbing); the multi-segment drivers only ever ask the log for a shrinking clone of the set they were given (R38 driver).",
+			"the bound itself: how many messages the count and size finders select (arithmetic over Stat and Size values), 'exactly min(count, max) left', 'size below the target', 'none older left'; that the selected set is a prefix when a scan ends early; everything Delete does with the set (C12)."},
+		"C16": {
+			"both compaction finders scan from OffsetOldest without gaps (R37 cursor); the key tree is keyed by a message's own Key bytes and stores that message's own Offset, and only messages tested as not after the cut-off enter it (R37 key); FindUpdates selects only what the tree gave back as the replaced holder of the same key, where the tree said a value was replaced; FindDeletes selects the current message only where its Value was tested nil (or empty) and the tree said its key was not seen before (R37 selection); wrappers and drivers as for C15 (R38).",
+			"that the latest value per key is unchanged (a statement about all keys and offsets); behaviour of the radix tree for keys that are prefixes of each other; cut-off arithmetic in Compact (time.Now() - age); everything Delete does with the set (C12)."},
 		"C17": {
 			"each version has an encoder and a decoder that agree with the layout (R9), every version switch is exhaustive (R19), the migrate loop copies every record and indexes destination positions (R11), migrates in a safe order with the temp file fsynced (R2 O2, R1 I5).",
 			"which version a segment ends up in; idempotence; mixed-version behavioural equivalence."},
